@@ -119,3 +119,41 @@ def tabulate_rom(m):
             continue   # not a legal word: reading it is an error in every simulator
         out.append([a, v])
     return out
+
+
+def ser_malformed(block):
+    """Serialize a possibly malformed block for the Lean sanity model: wires may share names, nets may
+    mention wires that are not registered with the block, op_param may be anything."""
+    members = set(block.wirevector_set)
+    wires = list(members)
+    for n in block.logic:
+        for w in tuple(n.args) + tuple(n.dests):
+            if w not in members and not any(w is x for x in wires):
+                wires.append(w)
+    wires.sort(key=lambda w: (w.name, id(w)))
+    wid = {id(w): i for i, w in enumerate(wires)}
+    ws = []
+    for w in wires:
+        k = 'i' if isinstance(w, Input) else 'o' if isinstance(w, Output) else 'c' if isinstance(w, Const) \
+            else 'r' if isinstance(w, Register) else 'p'
+        ws.append({'n': w.name, 'w': -1 if w.bitwidth is None else w.bitwidth, 'k': k,
+                   'member': (w in members) and (w._block is block),
+                   'byname': block.wirevector_by_name.get(w.name) is w})
+    ns = []
+    for n in sorted(block.logic, key=lambda n: str(n)):
+        p = n.op_param
+        d = {'op': n.op, 'a': [wid[id(a)] for a in n.args], 'd': [wid[id(x)] for x in n.dests],
+             'pnone': p is None, 'ptuple': isinstance(p, tuple)}
+        if isinstance(p, tuple) and n.op in 'm@' and len(p) == 2 and isinstance(p[1], MemBlock):
+            d['plen'] = 2
+            d['mem'] = {'id': p[1].id, 'aw': p[1].addrwidth, 'dw': p[1].bitwidth, 'async': bool(p[1].asynchronous)}
+            d['pvals'] = []
+        elif isinstance(p, tuple):
+            d['plen'] = len(p)
+            d['pvals'] = [int(x) for x in p if isinstance(x, int)]
+            d['pints'] = all(isinstance(x, int) for x in p)
+        else:
+            d['plen'] = 0
+            d['pvals'] = []
+        ns.append(d)
+    return {'wires': ws, 'nets': ns, 'legal_ops': ''.join(sorted(block.legal_ops))}
